@@ -43,6 +43,12 @@ struct Cfg
   bool bounded;
   bool enforce;
   bool other_img = false; // set_up() with ANOTHER image object of the same characteristics than the one given to reconstruct()
+  // domain audit (AUD_E): 'save estimates at subiteration intervals' of THIS run (the checked run always saves every iterate: the
+  // step-by-step formula check needs them); save_b = the interval the resumed runs of the case use.  IterativeReconstruction::set_up
+  // calls error() for an interval outside [1, number of sub-iterations]; files are due where j % interval == 0 and at the last one.
+  int save_interval = 1, save_b = 1;
+  bool file_due(int j) const { return j % save_interval == 0 || j == n_sub; }
+  bool beta_zero = false; // a prior object is set, its penalisation factor is exactly 0
 };
 
 // documented in OSSPSReconstruction::set_up: threshold_min_to_small_positive_value(image, 10.E-6F)
@@ -84,7 +90,9 @@ decode(const json& c)
   k.bounded = c["ub_rel"].get<double>() > 0;
   k.enforce = c["enforce"].get<bool>();
   k.upper_bound = double(std::numeric_limits<float>::max());
-  k.n_sub = c.value("n_sub", k.n_sub); // first runs of a history: a number of sub-iterations, not of full iterations
+  k.n_sub = c.value("n_sub", k.n_sub); // a number of sub-iterations, not of full iterations (first runs of a history; AUD_E: runs ending inside an iteration)
+  k.save_b = std::max(1, std::min(c.value("save_b", 1), k.n_sub));
+  k.beta_zero = c.value("beta_zero", false);
   return k;
 }
 
@@ -108,6 +116,8 @@ finish_cfg(Cfg& k, const json& c, const Fixture& F)
           }
       mean_h = cnt ? mean_h / double(cnt) : 1.;
       k.prior.beta = float(std::pow(10., c["beta_exp"].get<double>()) * mean_h / std::max(1., c["count_max"].get<double>()) / 40.);
+      if (k.beta_zero)
+        k.prior.beta = 0.F; // legal (GeneralisedPrior: penalisation factor, no lower bound documented; 0 = prior switched off)
     }
 }
 
@@ -261,7 +271,7 @@ configure(OSSPSReconstruction<target_type>& recon, const Cfg& k, const std::stri
   recon.set_num_subiterations(k.n_sub);
   recon.set_start_subiteration_num(start);
   recon.set_start_subset_num(k.start_subset);
-  recon.set_save_interval(1);
+  recon.set_save_interval(k.save_interval);
   recon.set_randomise_subset_order(false);
   return "";
 }
@@ -305,7 +315,8 @@ execute(OSSPSReconstruction<target_type>& recon, const Fixture& F, const Cfg& k,
     return "reconstruct returned Succeeded::no";
   out.iter.assign(std::size_t(k.n_sub) + 1, shared_ptr<target_type>());
   for (int j = start; j <= k.n_sub; ++j)
-    out.iter[std::size_t(j)] = read_image(F, cat(prefix, "_", j, ".hv"));
+    if (k.file_due(j)) // 'save estimates at subiteration intervals': multiples of the interval and the last sub-iteration
+      out.iter[std::size_t(j)] = read_image(F, cat(prefix, "_", j, ".hv"));
   out.final_in_memory = target;
   return "";
 }
@@ -339,6 +350,7 @@ resume_same_object(Sps& o, const Fixture& F, const Cfg& k, const std::string& pr
 {
   o.recon->set_start_subiteration_num(start);
   o.recon->set_output_filename_prefix(prefix);
+  o.recon->set_save_interval(k.save_interval);
   return execute(*o.recon, F, k, prefix, target, start, out, setup_rejected);
 }
 
@@ -372,7 +384,7 @@ run_recon_files(const Fixture& F, const Cfg& k, const std::string& prefix, const
         << "number of subiterations := " << k.n_sub << "\n"
         << "start at subiteration number := " << start << "\n"
         << "start at subset := " << k.start_subset << "\n"
-        << "save estimates at subiteration intervals := 1\n"
+        << "save estimates at subiteration intervals := " << k.save_interval << "\n"
         << "uniformly randomise subset order := 0\n"
         << "initial estimate := " << start_file << "\n"
         << "output filename prefix := " << prefix << "\n"
@@ -409,7 +421,8 @@ run_recon_files(const Fixture& F, const Cfg& k, const std::string& prefix, const
     }
   out.iter.assign(std::size_t(k.n_sub) + 1, shared_ptr<target_type>());
   for (int j = start; j <= k.n_sub; ++j)
-    out.iter[std::size_t(j)] = read_image(F, cat(prefix, "_", j, ".hv"));
+    if (k.file_due(j)) // 'save estimates at subiteration intervals': multiples of the interval and the last sub-iteration
+      out.iter[std::size_t(j)] = read_image(F, cat(prefix, "_", j, ".hv"));
   out.final_in_memory.reset();
   return "";
 }
@@ -722,11 +735,18 @@ check(const json& c_in)
                                                        : (files == 2 ? (den_file ? ", NEW objects reading image, sensitivities and denominator from files (parsed parameter text, reconstruct())"
                                                                                  : ", NEW objects reading image and sensitivities from files (parsed parameter text, reconstruct())")
                                                                      : ", NEW objects reading image and sensitivities from files (setters)"));
-        const std::string msg = kind == 0 ? run_recon(F, k, bprefix, read_image(F, start_file), kk + 1, B, &rej)
-                                          : (kind == 1 ? resume_same_object(R, F, k, bprefix, read_image(F, start_file), kk + 1, B, &rej)
-                                                       : run_recon_files(F, k, bprefix, start_file, kk + 1, B, sf, files,
+        // AUD_E: the resumed runs save at the interval of the case (the checked run at every sub-iteration): the files that are due -
+        // multiples of the interval and the last sub-iteration - must hold the iterates of the uninterrupted run
+        Cfg kb = k;
+        kb.save_interval = k.save_b;
+        const std::string msg = kind == 0 ? run_recon(F, kb, bprefix, read_image(F, start_file), kk + 1, B, &rej)
+                                          : (kind == 1 ? resume_same_object(R, F, kb, bprefix, read_image(F, start_file), kk + 1, B, &rej)
+                                                       : run_recon_files(F, kb, bprefix, start_file, kk + 1, B, sf, files,
                                                                          den_file ? tmp.path + "/A_precomputed_denominator.hv" : std::string()));
         VF_CHECK(msg.empty(), hnote, "resumed run (start at sub-iteration ", kk + 1, how, ") failed: ", msg);
+        const bool first_saved = bool(B.iter[std::size_t(kk + 1)]);
+        if (kb.save_interval > 1)
+          stats().count("resumed runs with a save interval > 1");
         if (kind == 1)
           stats().count("resumes on the same reconstruction object");
         if (kind == 2)
@@ -750,6 +770,8 @@ check(const json& c_in)
           }
         for (int j = kk + 1; j <= n; ++j)
           {
+            if (!B.iter[std::size_t(j)])
+              continue; // not due at the save interval of the resumed run
             const std::vector<double> b = image_vec(F, *B.iter[std::size_t(j)]);
             for (std::size_t v = 0; v < b.size(); ++v)
               VF_CHECK(std::isfinite(b[v]) && b[v] >= 0. && b[v] <= ub, "resumed run (from ", kk, how, "): iterate ", j, " has value ", b[v], " at voxel ", v, " outside [0, ",
@@ -765,6 +787,8 @@ check(const json& c_in)
           {
             for (int j = kk + 1; j <= n; ++j)
               {
+                if (!B.iter[std::size_t(j)])
+                  continue;
                 const Result res = compare(kind == 2 ? "restart through files" : "restart", image_vec(F, *B.iter[std::size_t(j)]), lam[std::size_t(j)], vmax(lam[std::size_t(j)]), 1e-6,
                                            kind == 2 ? "max rel diff restart through files (image and sensitivities read)" : "max rel diff restart",
                                            cat(hnote, "(resumed at sub-iteration ", kk + 1, " from the image saved after ", kk, ", iterate ", j, " of ", n, ", N=", k.N, how,
@@ -776,7 +800,7 @@ check(const json& c_in)
             if (kk % k.N != 0)
               stats().count("restarts compared at k not a multiple of N");
           }
-        if ((lifting || excluded || kind == 2) && formula_ok)
+        if ((lifting || excluded || kind == 2) && formula_ok && first_saved)
           {
             // the resumed run is a run of its own: first update from the (lifted, re-zeroed) saved image by formula; for the
             // file-based stage 2 always (the formula with the harness's own sensitivities and denominator, independent of run A)
@@ -819,6 +843,14 @@ check(const json& c_in)
     stats().cls("prior curvature with kappa computed by the harness's own formula");
   if (k.prior.kind != 0 && k.prior.kappa && k.prior.kzero != 0)
     stats().cls(k.prior.kzero == 1 ? "kappa exactly 0 in voxels no bin sees" : "kappa exactly 0 in voxels no bin sees and in others");
+  if (k.prior.kind && k.beta_zero)
+    stats().cls("prior object with penalisation factor exactly 0");
+  if (n % k.N != 0)
+    stats().cls("run ends inside a full iteration (number of sub-iterations not a multiple of N)");
+  if (k.save_b > 1 && n > 1)
+    stats().cls(k.save_b >= n ? "resumed runs save only the last sub-iteration" : "resumed runs save at an interval > 1");
+  if (c["start_zero_fraction"].get<double>() >= 1.)
+    stats().cls("start image all zero");
   stats().cls(k.N == 1 ? "N=1" : (k.N <= 4 ? "N=2-4" : "N>=5"));
   stats().cls(balanced(F.vg_per_subset) ? "balanced subsets" : "unbalanced subsets");
   stats().cls(cat("prior ", k.prior.kind == 0 ? "none" : (k.prior.kappa ? "quadratic with kappa" : "quadratic")));
@@ -884,13 +916,21 @@ gen(Src& s, int size)
   while (iters > 1 && iters * N > 36)
     --iters;
   c["iters"] = iters;
+  // AUD_E: a fifth of the runs with N > 1 end INSIDE a full iteration ("number of subiterations" is any number >= 1:
+  // IterativeReconstruction::set_up only calls error() below 1), so the last interruption points lie in an incomplete iteration
+  if (N > 1 && s.chance(1, 5))
+    c["n_sub"] = iters * N - int(s.range(1, N - 1));
+  // AUD_E: save interval of the RESUMED runs (the checked run saves every iterate); clipped to the number of sub-iterations in decode()
+  // (set_up calls error() above it); 36 >= every run length = "only the last sub-iteration is saved"
+  c["save_b"] = s.chance(2, 3) ? 1 : int(s.pick(std::vector<int>{ 2, 3, 5, 36 }));
   c["use_add"] = s.coin();
   c["use_norm"] = s.coin();
   c["count_max"] = s.pick(std::vector<double>{ 8., 40., 200., 2000. });
   c["ymode"] = s.chance(2, 3) ? 0 : 1;
   c["y_zeros"] = s.chance(1, 6);
   c["start_scale"] = s.pick(std::vector<double>{ 0.3, 1., 1., 3. });
-  c["start_zero_fraction"] = s.pick(std::vector<double>{ 0., 0., 0.15, 0.5 });
+  // AUD_E: 1 = the start image is zero everywhere (legal for OSSPS: an additive update; with enforce_initial_positivity the documented lifting applies)
+  c["start_zero_fraction"] = s.chance(1, 10) ? 1. : s.pick(std::vector<double>{ 0., 0., 0.15, 0.5 });
   // relaxation: alpha in (0,2], gamma in [0,1] (float-representable so that the text of the parameter file is exact)
   c["alpha"] = double(s.range(1, 32)) / 16.;
   c["gamma"] = s.chance(1, 4) ? 0. : double(s.range(1, 16)) / 16.;
@@ -901,7 +941,11 @@ gen(Src& s, int size)
   // and only the threshold keeps D strictly positive
   c["kzero"] = s.pick(std::vector<int>{ 0, 0, 1, 2 });
   c["beta_exp"] = s.real(-2., 1.5);
+  // AUD_E: a prior object whose penalisation factor is exactly 0 (1/8 of the prior cases): no penalty share in the gradient, no curvature in D
+  c["beta_zero"] = s.chance(1, 8);
   c["enforce"] = s.chance(1, 4);
+  if (c["start_zero_fraction"].get<double>() >= 1. && s.coin())
+    c["enforce"] = true; // all-zero start image: both branches of the documented initial threshold (nothing positive to scale with)
   c["other_img"] = s.chance(1, 3);
   // recompute_penalty_term_in_denominator on (property text): a quadratic prior whose surrogate curvature is reported to
   // depend on the argument (QuadraticPriorRecompute), half of the prior cases
@@ -984,7 +1028,7 @@ gen(Src& s, int size)
 bool
 nontrivial(const json& c)
 {
-  return (c["gamma"].get<double>() > 0 && c["iters"].get<int>() >= 2) || c["prior"].get<int>() != 0 || c["ub_rel"].get<double>() > 0;
+  return (c["gamma"].get<double>() > 0 && c["iters"].get<int>() >= 2) || (c["prior"].get<int>() != 0 && !c.value("beta_zero", false)) || c["ub_rel"].get<double>() > 0;
 }
 
 } // namespace
